@@ -168,7 +168,7 @@ impl Check for C03Check {
     fn rule(&self) -> String {
         format!(
             "Phase class-sequences: every sequence of up to L token classes ({} classes, one per parser token class incl. brackets, separators, `;;`, annotations; L=4 quick, 5 thorough) x 3 separators (none, space, annotation), in size order; \
-             token-soups and char-soups: random sequences of up to 400 tokens / 300 characters (control characters, quotes, backslash, CR, NUL, multi-byte) from a proptest tape; scaling: {} input families (deep nesting, long chains, long literals, unbalanced brackets) at doubling sizes. \
+             literal-strings: every string of length <= 6 (quick) / 7 (thorough) over the characters single quote, double quote, 1, 0, space, é, backslash, a, underscore (all literal shapes incl. multi-byte content in every quote form and radix-like numbers); token-soups and char-soups: random sequences of up to 400 tokens / 300 characters (control characters, quotes, backslash, CR, NUL, multi-byte) from a proptest tape; scaling: {} input families (deep nesting, long chains, long literals, unbalanced brackets) at doubling sizes. \
              Oracle: lex, parse and build (into SimpleGarnishData and BasicGarnishData) each return Ok or Err: no panic (catch_unwind), no abort or hang (worker watchdog, 5 s per case; 60 s for scaling cases), the scaling families (n up to 2048 quick / 16384 thorough) must finish inside a 30 s watchdog (they take < 0.1 s on the unchanged tree). \
              Non-trivial = the input lexes (reaches parse); distinct = distinct input strings.",
             TOKEN_CLASSES.len(),
@@ -185,6 +185,7 @@ impl Check for C03Check {
         let l = tier.pick(4, 5);
         vec![
             Phase::exhaustive("class-sequences", class_sequence_count(l)).with_chunk(8192),
+            Phase::exhaustive("literal-strings", alphabet_count(LITERAL_ALPHABET.len() as u64, tier.pick(6, 7))).with_chunk(8192),
             Phase::random("token-soups", tier.pick(60_000, 2_000_000), 800).with_min_tape(4).with_chunk(1024),
             Phase::random("char-soups", tier.pick(60_000, 2_000_000), 300).with_min_tape(2).with_chunk(1024),
             Phase::exhaustive("scaling", (FAMILIES.len() * Self::sizes(tier).len()) as u64).with_chunk(1).with_deadline_ms(30_000),
@@ -198,19 +199,25 @@ impl Check for C03Check {
                 let out = run_pipeline(&s, ctx);
                 classify(&out, &s, ctx);
             }
-            (1, Input::Tape(t)) => {
-                let s = token_soup(&mut Tape::new(t), 400);
+            (1, Input::Index(i)) => {
+                let s = alphabet_string(*i, LITERAL_ALPHABET, tier.pick(6, 7));
                 ctx.render(|| format!("{:?}", s));
                 let out = run_pipeline(&s, ctx);
                 classify(&out, &s, ctx);
             }
             (2, Input::Tape(t)) => {
+                let s = token_soup(&mut Tape::new(t), 400);
+                ctx.render(|| format!("{:?}", s));
+                let out = run_pipeline(&s, ctx);
+                classify(&out, &s, ctx);
+            }
+            (3, Input::Tape(t)) => {
                 let s = char_soup(&mut Tape::new(t), 300);
                 ctx.render(|| format!("{:?}", s));
                 let out = run_pipeline(&s, ctx);
                 classify(&out, &s, ctx);
             }
-            (3, Input::Index(i)) => {
+            (4, Input::Index(i)) => {
                 let sizes = Self::sizes(tier);
                 let fam = FAMILIES[(*i as usize) / sizes.len()];
                 let n = sizes[(*i as usize) % sizes.len()];
@@ -231,9 +238,10 @@ impl Check for C03Check {
     fn render(&self, tier: Tier, phase: usize, input: &Input) -> String {
         match (phase, input) {
             (0, Input::Index(i)) => format!("{:?}", class_sequence(*i, tier.pick(4, 5))),
-            (1, Input::Tape(t)) => format!("{:?}", token_soup(&mut Tape::new(t), 400)),
-            (2, Input::Tape(t)) => format!("{:?}", char_soup(&mut Tape::new(t), 300)),
-            (3, Input::Index(i)) => {
+            (1, Input::Index(i)) => format!("{:?}", alphabet_string(*i, LITERAL_ALPHABET, tier.pick(6, 7))),
+            (2, Input::Tape(t)) => format!("{:?}", token_soup(&mut Tape::new(t), 400)),
+            (3, Input::Tape(t)) => format!("{:?}", char_soup(&mut Tape::new(t), 300)),
+            (4, Input::Index(i)) => {
                 let sizes = Self::sizes(tier);
                 format!("family {} n={}", FAMILIES[(*i as usize) / sizes.len()], sizes[(*i as usize) % sizes.len()])
             }
